@@ -2964,12 +2964,43 @@ impl ContinuityStore {
     }
 
     pub fn get(&self, continuity_id: &str) -> Option<ContinuityMeta> {
-        let index = self.index.lock().expect("continuity index mutex");
-        let meta = index.continuities.get(continuity_id)?;
+        {
+            let index = self.index.lock().expect("continuity index mutex");
+            if let Some(meta) = index.continuities.get(continuity_id) {
+                return Some(ContinuityMeta {
+                    continuity_id: continuity_id.to_string(),
+                    created_at_ms: meta.created_at_ms,
+                    title: meta.title.clone(),
+                    archived: meta.archived,
+                });
+            }
+        }
+        self.recover_index_entry_from_truth(continuity_id)
+    }
+
+    /// The thread index is a cache of `continuity_created` frames. An entry that is missing (the
+    /// authority died between appending the frame and saving the index, or the index was lost)
+    /// is rebuilt from the thread's own stream.
+    fn recover_index_entry_from_truth(&self, continuity_id: &str) -> Option<ContinuityMeta> {
+        let events = self.replay_events(continuity_id).ok()?;
+        let created = events.first()?;
+        let EventKind::ContinuityCreated { title, .. } = &created.kind else {
+            return None;
+        };
+        let meta = ContinuityMetaV1 {
+            created_at_ms: created.timestamp_ms,
+            title: title.clone(),
+            archived: false,
+        };
+        let mut index = self.index.lock().expect("continuity index mutex");
+        index
+            .continuities
+            .insert(continuity_id.to_string(), meta.clone());
+        let _ = save_index(&index_path(&self.data_dir), &index);
         Some(ContinuityMeta {
             continuity_id: continuity_id.to_string(),
             created_at_ms: meta.created_at_ms,
-            title: meta.title.clone(),
+            title: meta.title,
             archived: meta.archived,
         })
     }
